@@ -12,9 +12,9 @@ git diff -- . ":(exclude)$demo" > "$dst/patch.diff"
 mkdir -p "$dst/demo"; cp -r "$wt/$demo" "$dst/demo/" 2>/dev/null
 echo "== build with change"; go build ./... || { echo BUILD-FAILS; exit 1; }
 echo "== demo with change (must fail)"; (eval "$cmd") > "$dst/demo_with.txt" 2>&1; w=$?; tail -5 "$dst/demo_with.txt"
-git stash -q -- $(git diff --name-only -- . ":(exclude)$demo")
+git apply -R "$dst/patch.diff"   # (git stash is shared between worktrees: never use it here)
 echo "== demo without change (must pass)"; (eval "$cmd") > "$dst/demo_without.txt" 2>&1; wo=$?; tail -3 "$dst/demo_without.txt"
-git stash pop -q
+git apply "$dst/patch.diff"
 echo "demo exit with=$w without=$wo"
 echo "== tests of touched packages"
 pk=$(git diff --name-only -- . ":(exclude)$demo" | xargs -n1 dirname | sort -u | sed 's|^|./|')
